@@ -592,7 +592,7 @@ pub fn run(ctx: &Ctx) -> i32 {
         }
         return ev.finish();
     }
-    let ncases = if cfg!(miri) { ctx.extra.get("miri-cases").and_then(|s| s.parse().ok()).unwrap_or(4) } else { ctx.n(20000, 200000) };
+    let ncases = if cfg!(miri) { ctx.extra.get("miri-cases").and_then(|s| s.parse().ok()).unwrap_or(4) } else { ctx.n(20000, 60000) };
     let next = AtomicU64::new(0);
     let shared = Mutex::new(ev);
     let deadline = if ctx.budget_s > 0 { Some(std::time::Instant::now() + std::time::Duration::from_secs(ctx.budget_s)) } else { None };
@@ -782,7 +782,7 @@ pub fn run_c19(ctx: &Ctx) -> i32 {
     let prof = profile_for("C19");
     let mut ev0 = Evidence::new(ctx, "exploration", RULE_C19);
     ev0.assumptions = vec!["M-KV and the strict response parser; L1 boundary with a virtual clock".into()];
-    let nprog = ctx.n(6000, 60000);
+    let nprog = ctx.n(6000, 20000);
     let next = AtomicU64::new(0);
     let shared = Mutex::new(ev0);
     let deadline = if ctx.budget_s > 0 { Some(std::time::Instant::now() + std::time::Duration::from_secs(ctx.budget_s)) } else { None };
